@@ -372,3 +372,148 @@ Theorem color_elem_fg :
        CascadeDom.elem_fg sd true inline_styles d me = Some c.
 Proof. exact AttrColours.color_elem_fg. Qed.
 Print Assumptions color_elem_fg.
+
+(* the priority flag in its legal spellings (Proofs/ImportantSpellings.v): white space or comments
+   after the '!', any letter case, anything insignificant after the keyword - always the flag,
+   for every property and value; sheets spelled that way parse to the rules they mean *)
+From H2T Require Import Base Tagged Wrap Sub Css Dom Render Api CssParse Proofs.CssTotal Proofs.WrapInv Proofs.RenderWidth Proofs.Conserve Proofs.Footnotes Proofs.AnnBalance Proofs.RenderConserve Proofs.OptionRel Proofs.Compose Proofs.RenderTotal Proofs.FragStream Proofs.SimRel Proofs.Prune Proofs.ImportantSpellings.
+
+Theorem flag_parse_value :
+  forall (l : CssVariants.atoms) (w0 w1 : text) (imp : list N) (K : text),
+       CssVariants.atoms_ok l ->
+       forallb (fun wa : text * CssVariants.atom => CssVariants.vatom (snd wa)) l = true ->
+       CssVariants.vdepth l 0 = true ->
+       CssVariants.achain l = true ->
+       CssRoundTrip.wsm w0 ->
+       CssRoundTrip.wsm w1 ->
+       imp_ok imp ->
+       CssVariants.vend K ->
+       parse_value (CssVariants.print_atoms l ++ w0 ++ of_ascii [33] ++ w1 ++ of_ascii imp ++ K) =
+       POk (CssVariants.toks_of l, true) K.
+Proof. exact ImportantSpellings.flag_parse_value. Qed.
+Print Assumptions flag_parse_value.
+
+Theorem flag_parse_value_trailing :
+  forall (l : CssVariants.atoms) (w0 w1 : text) (imp : list N) (w2 : text) (x : N) (k : list chr),
+       CssVariants.atoms_ok l ->
+       forallb (fun wa : text * CssVariants.atom => CssVariants.vatom (snd wa)) l = true ->
+       CssVariants.vdepth l 0 = true ->
+       CssVariants.achain l = true ->
+       CssRoundTrip.wsm w0 ->
+       CssRoundTrip.wsm w1 ->
+       imp_ok imp ->
+       CssRoundTrip.wsm w2 ->
+       x = 59 \/ x = 125 ->
+       parse_value
+         (CssVariants.print_atoms l ++ w0 ++ of_ascii [33] ++ w1 ++ of_ascii imp ++ w2 ++ of_ascii [x] ++ k) =
+       POk (CssVariants.toks_of l, true) (w2 ++ of_ascii [x] ++ k).
+Proof. exact ImportantSpellings.flag_parse_value_trailing. Qed.
+Print Assumptions flag_parse_value_trailing.
+
+Theorem flag_spellings_agree :
+  forall (l : CssVariants.atoms) (w0 w1 : text) (imp : list N) (w2 : text) (x : N) (k : list chr),
+       CssVariants.atoms_ok l ->
+       forallb (fun wa : text * CssVariants.atom => CssVariants.vatom (snd wa)) l = true ->
+       CssVariants.vdepth l 0 = true ->
+       CssVariants.achain l = true ->
+       CssRoundTrip.wsm w0 ->
+       CssRoundTrip.wsm w1 ->
+       imp_ok imp ->
+       CssRoundTrip.wsm w2 ->
+       x = 59 \/ x = 125 ->
+       pval
+         (parse_value
+            (CssVariants.print_atoms l ++
+             w0 ++ of_ascii [33] ++ w1 ++ of_ascii imp ++ w2 ++ of_ascii [x] ++ k)) =
+       pval
+         (parse_value
+            (CssVariants.print_atoms l ++
+             CssRoundTrip.sp1 ++ of_ascii [33] ++ [] ++ of_ascii s_important ++ [] ++ of_ascii [x] ++ k)).
+Proof. exact ImportantSpellings.flag_spellings_agree. Qed.
+Print Assumptions flag_spellings_agree.
+
+Theorem item_decl_flag :
+  forall (n : list N) (w : text) (l : CssVariants.atoms) (w0 w1 : text) (imp : list N),
+       imp_ok imp ->
+       CssVariants.item_decl (flag_item n w l w0 w1 imp) =
+       {|
+         d_data := decl_of (of_ascii (map CssVariants.lowerN n)) (CssVariants.toks_of l); d_important := true
+       |}.
+Proof. exact ImportantSpellings.item_decl_flag. Qed.
+Print Assumptions item_decl_flag.
+
+Theorem parse_declaration_flag :
+  forall (n : list N) (w : text) (l : CssVariants.atoms) (w0 w1 : text) (imp : list N) (K : text),
+       CssVariants.name_okb n = true ->
+       CssRoundTrip.wsm w ->
+       CssVariants.atoms_ok l ->
+       forallb (fun wa : text * CssVariants.atom => CssVariants.vatom (snd wa)) l = true ->
+       CssVariants.vdepth l 0 = true ->
+       CssVariants.achain l = true ->
+       CssRoundTrip.wsm w0 ->
+       CssRoundTrip.wsm w1 ->
+       imp_ok imp ->
+       CssVariants.vend K ->
+       parse_declaration
+         (of_ascii n ++
+          w ++ of_ascii [58] ++ CssVariants.print_atoms l ++ w0 ++ of_ascii [33] ++ w1 ++ of_ascii imp ++ K) =
+       POk
+         {|
+           d_data := decl_of (of_ascii (map CssVariants.lowerN n)) (CssVariants.toks_of l);
+           d_important := true
+         |} K.
+Proof. exact ImportantSpellings.parse_declaration_flag. Qed.
+Print Assumptions parse_declaration_flag.
+
+Theorem real_item2_decl :
+  forall (d : declaration) (s : CssVariants.spelling) (w4 : text),
+       CssRoundTrip.decl_ok d = true ->
+       CssVariants.spelling_ok d s -> CssVariants.item_decl (real_item2 d s w4) = d.
+Proof. exact ImportantSpellings.real_item2_decl. Qed.
+Print Assumptions real_item2_decl.
+
+Theorem real_item2_ok :
+  forall (d : declaration) (s : CssVariants.spelling) (w4 : text),
+       CssRoundTrip.decl_ok d = true ->
+       CssVariants.spelling_ok d s -> CssRoundTrip.wsm w4 -> CssVariants.ditem_ok (real_item2 d s w4).
+Proof. exact ImportantSpellings.real_item2_ok. Qed.
+Print Assumptions real_item2_ok.
+
+Theorem parse_declaration_real2 :
+  forall (d : declaration) (s : CssVariants.spelling) (w4 K : text),
+       CssRoundTrip.decl_ok d = true ->
+       CssVariants.spelling_ok d s ->
+       CssRoundTrip.wsm w4 ->
+       CssVariants.vend K -> parse_declaration (CssVariants.print_ditem (real_item2 d s w4) ++ K) = POk d K.
+Proof. exact ImportantSpellings.parse_declaration_real2. Qed.
+Print Assumptions parse_declaration_real2.
+
+Theorem parse_rule_spelled :
+  forall (r : srule) (rest : list chr),
+       srule_ok r ->
+       parse_ruleset (CssVariants.print_vrule (srule_v r) ++ rest) =
+       POk (srule_means r) (skip_ws (CssRoundTrip.w_end (CssRoundTrip.w_base (sr_ws r)) ++ rest)).
+Proof. exact ImportantSpellings.parse_rule_spelled. Qed.
+Print Assumptions parse_rule_spelled.
+
+Theorem spelled_sheet_rules :
+  forall (lead : text) (rs : list srule),
+       CssRoundTrip.wsm lead ->
+       Forall srule_ok rs ->
+       parse_css_rules (lead ++ CssVariants.print_vsheet (ssheet rs)) =
+       CssOk (CssVariants.rules_of (map srule_means rs)).
+Proof. exact ImportantSpellings.spelled_sheet_rules. Qed.
+Print Assumptions spelled_sheet_rules.
+
+Theorem spelled_sheets_agree :
+  forall (lead1 : text) (rs1 : list srule) (lead2 : text) (rs2 : list srule),
+       CssRoundTrip.wsm lead1 ->
+       Forall srule_ok rs1 ->
+       CssRoundTrip.wsm lead2 ->
+       Forall srule_ok rs2 ->
+       map srule_means rs1 = map srule_means rs2 ->
+       parse_css_rules (lead1 ++ CssVariants.print_vsheet (ssheet rs1)) =
+       parse_css_rules (lead2 ++ CssVariants.print_vsheet (ssheet rs2)).
+Proof. exact ImportantSpellings.spelled_sheets_agree. Qed.
+Print Assumptions spelled_sheets_agree.
+
